@@ -97,10 +97,10 @@ add('C14', 'exploration',
     'Trusted: the exclusion model in checks/c14.py (restates the statement), qrref reader. Documented argument types only.',
     'DESIGN.md section 5, C14')
 add('C15', 'model_checking',
-    'explicit-state BFS over call histories of the real library (object-graph state hashing, fork per transition) + all explicit histories up to length n + stateless enumeration of all 2-thread schedules with <= p preemptions under a settrace baton scheduler',
-    'E-hist: every operation of a 47-call menu maps the initial state to itself (reachable state set {S0}, complete for all depths under the canonicaliser) and all ordered pairs (thorough: triples of a core menu) '
-    'reproduce the fresh-interpreter observations; E-sched: all schedules with <= 1 (thorough: 2) preemptions for 9+ thread pairs give the sequential results; idempotence over the C02/C04 configurations.',
-    'Trusted: CPython GIL (no preemption inside C calls), the state canonicaliser (explicit histories do not rely on it). Two threads only.',
+    'explicit-state BFS over call histories of the real library (object-graph state hashing, fork per transition) + all explicit histories up to length n + the same ~5900 calls in several orders + stateless enumeration of all 2-thread schedules with <= p preemptions under a settrace baton scheduler (line / call / opcode granularity and a partial-order-reduced "shared access" granularity), each schedule from the initial state, with a sequential epilogue',
+    'E-hist: every operation of a ~100-call menu maps the initial state to itself (reachable state set {S0}, complete for all depths under the canonicaliser) and all ordered pairs (thorough: triples of a core menu) '
+    'reproduce the fresh-interpreter observations; a long history gives the same results in every order; E-sched: all schedules with <= 1 preemption (<= 2 at shared-access granularity) for ~45 thread pairs give the sequential results and leave the library in the sequential state; idempotence over the C02/C04 configurations.',
+    'Trusted: CPython GIL (no preemption inside C calls), the state canonicaliser (explicit histories do not rely on it), the static shared-access analysis of the reduced granularities (module globals, global-rebound names, mutable defaults). Two threads only.',
     'DESIGN.md section 5, C15')
 add('C16', 'exploration',
     'exhaustive enumeration of all strings of length <= n over the delimiter/escape alphabet in every helper text field, field pairs, multi-values, EPC limits +-1; payloads parsed by independent MeCard/vCard/URI/EPC parsers',
